@@ -170,7 +170,7 @@ pub fn goal_to_horn(g: &Goal<ChalkIr>, env: &mut Vec<Bind>, fresh: &mut usize) -
             (GenericArgData::Ty(a), GenericArgData::Ty(b)) => tagged("eq", vec![tm_of_ty(a, env)?, tm_of_ty(b, env)?]),
             _ => return None,
         },
-        GoalData::DomainGoal(DomainGoal::Holds(WhereClause::Implemented(tr))) => atom_of_trait_ref(tr, env)?,
+        GoalData::DomainGoal(dg) => atom_of_domain_goal(dg, env)?,
         _ => return None,
     })
 }
@@ -387,5 +387,102 @@ pub fn env_hyps(g: &Sexp) -> Sexp {
         Some(("and", [a, b])) => tagged("and", vec![env_hyps(a), env_hyps(b)]),
         Some(("not", [a])) => tagged("not", vec![env_hyps(a)]),
         _ => g.clone(),
+    }
+}
+
+/// C07 (fragment F2): traits with (non-generic) associated types, impls giving their values.
+///   tr(x̄)              :- impl where-clauses                       (Implemented-From-Impl)
+///   norm:A(x̄, value)   :- impl where-clauses                       (Normalize-From-Impl)
+///   aeq:A(x̄, u)        :- norm:A(x̄, u)                             (AliasEq-Normalize)
+///   aeq:A(x̄, assocty:A(x̄))                                          (AliasEq-Placeholder)
+/// Values must not mention projections (counted out of fragment otherwise).
+pub fn program_to_horn_assoc(p: &Program) -> Option<Sexp> {
+    let mut clauses = vec![];
+    for (_, d) in &p.impl_data {
+        if d.polarity != Polarity::Positive || d.impl_type != ImplType::Local {
+            return { if std::env::var("VERIF_DEBUG").is_ok() { eprintln!("assoc-fragment exit 1"); } None };
+        }
+        if d.binders.binders.iter(I).any(|k| !matches!(k, VariableKind::Ty(TyVariableKind::General))) {
+            return { if std::env::var("VERIF_DEBUG").is_ok() { eprintln!("assoc-fragment exit 2"); } None };
+        }
+        let b = d.binders.skip_binders();
+        let env = [Bind::Vars];
+        let head = atom_of_trait_ref(&b.trait_ref, &env)?;
+        let body: Vec<Sexp> = b.where_clauses.iter().map(|w| atom_of_wc(w, &env)).collect::<Option<_>>()?;
+        clauses.push(tagged("clause", vec![head, list(body.clone())]));
+        for vid in &d.associated_ty_value_ids {
+            let v = &p.associated_ty_values[vid];
+            // the value's binders are the associated type's own parameters (none here) followed by
+            // the impl's parameters
+            if v.value.binders.len(I) != d.binders.len(I) {
+                return { if std::env::var("VERIF_DEBUG").is_ok() { eprintln!("assoc-fragment exit 3"); } None };
+            }
+            let value = tm_of_ty(&v.value.skip_binders().ty, &env)?;
+            let mut h = vec![atom("atom"), atom(&format!("norm:{}", v.associated_ty_id.0.index))];
+            h.extend(tms_of_subst(&b.trait_ref.substitution, &env)?);
+            h.push(value);
+            clauses.push(tagged("clause", vec![Sexp::List(h), list(body.clone())]));
+        }
+    }
+    for (id, t) in &p.trait_data {
+        let f = &t.flags;
+        if f.auto || f.marker || f.fundamental || f.coinductive || t.well_known.is_some() {
+            return { if std::env::var("VERIF_DEBUG").is_ok() { eprintln!("assoc-fragment exit 4"); } None };
+        }
+        if !t.binders.skip_binders().where_clauses.is_empty() {
+            return { if std::env::var("VERIF_DEBUG").is_ok() { eprintln!("assoc-fragment exit 5"); } None };
+        }
+        if t.binders.binders.iter(I).any(|k| !matches!(k, VariableKind::Ty(TyVariableKind::General))) {
+            return { if std::env::var("VERIF_DEBUG").is_ok() { eprintln!("assoc-fragment exit 6"); } None };
+        }
+        let n = t.binders.len(I);
+        for aid in &t.associated_ty_ids {
+            let a = &p.associated_ty_data[aid];
+            // no GAT parameters, no bounds / where-clauses on the associated type
+            if a.binders.len(I) != n || !a.binders.skip_binders().bounds.is_empty() || !a.binders.skip_binders().where_clauses.is_empty() {
+                return { if std::env::var("VERIF_DEBUG").is_ok() { eprintln!("assoc-fragment exit 7"); } None };
+            }
+            let vars: Vec<Sexp> = (0..n).map(|i| tagged("var", vec![nat(i)])).collect();
+            let u = tagged("var", vec![nat(n)]);
+            let mk = |pred: &str, last: Sexp| {
+                let mut h = vec![atom("atom"), atom(&format!("{}:{}", pred, aid.0.index))];
+                h.extend(vars.clone());
+                h.push(last);
+                Sexp::List(h)
+            };
+            clauses.push(tagged("clause", vec![mk("aeq", u.clone()), list(vec![mk("norm", u.clone())])]));
+            clauses.push(tagged("clause", vec![mk("aeq", app(&format!("assocty:{}", aid.0.index), vars.clone())), list(vec![])]));
+        }
+        let _ = id;
+    }
+    for (_, a) in &p.adt_data {
+        if !a.binders.skip_binders().where_clauses.is_empty() {
+            return { if std::env::var("VERIF_DEBUG").is_ok() { eprintln!("assoc-fragment exit 8"); } None };
+        }
+    }
+    if !p.custom_clauses.is_empty() || !p.opaque_ty_data.is_empty() {
+        return { if std::env::var("VERIF_DEBUG").is_ok() { eprintln!("assoc-fragment exit 9"); } None };
+    }
+    Some(tagged("program", vec![list(clauses), list(vec![])]))
+}
+
+/// Normalize / AliasEq domain goals as atoms (used by `goal_to_horn` through this hook)
+pub fn atom_of_domain_goal(dg: &DomainGoal<ChalkIr>, env: &[Bind]) -> Option<Sexp> {
+    let proj = |alias: &AliasTy<ChalkIr>, ty: &Ty<ChalkIr>, pred: &str| -> Option<Sexp> {
+        match alias {
+            AliasTy::Projection(p) => {
+                let mut h = vec![atom("atom"), atom(&format!("{}:{}", pred, p.associated_ty_id.0.index))];
+                h.extend(tms_of_subst(&p.substitution, env)?);
+                h.push(tm_of_ty(ty, env)?);
+                Some(Sexp::List(h))
+            }
+            _ => None,
+        }
+    };
+    match dg {
+        DomainGoal::Holds(WhereClause::Implemented(tr)) => atom_of_trait_ref(tr, env),
+        DomainGoal::Normalize(n) => proj(&n.alias, &n.ty, "norm"),
+        DomainGoal::Holds(WhereClause::AliasEq(ae)) => proj(&ae.alias, &ae.ty, "aeq"),
+        _ => None,
     }
 }
